@@ -297,7 +297,13 @@ def check_schema(ctx, schema, origin, src, opts_list, h2=False):
             ctx.fail("unparsable-output:%s:%s" % (type(e).__name__, origin), "the parser rejects the printed schema", dict(detail, text=t1))
             continue
         if opts["include_introspection"]:
-            continue   # the text redefines specified directives / introspection types: not meant to be rebuilt
+            # the text redefines specified directives / introspection types (finding C12/1)
+            try:
+                build_schema(t1)
+            except Exception as e:  # noqa
+                ctx.fail("C12-1:introspection-output-not-rebuildable:" + type(e).__name__,
+                         "to_string(include_introspection=True) is not accepted by build_schema", dict(detail, text=t1[:400]))
+            continue
         try:
             s2 = build_schema(t1)
         except RecursionError:
@@ -308,8 +314,17 @@ def check_schema(ctx, schema, origin, src, opts_list, h2=False):
             continue
         wd = bool(opts["include_descriptions"])
         a, b = externalise(schema, wd), externalise(s2, wd)
-        if origin == "shared":
-            # Python-typed values of a pass-through scalar (1 vs "1") cannot survive SDL: only text-level checks
+        if origin == "shared-noncanon":
+            reset_state()
+            if canon(a) != canon(b) or call(s2, opts) != r:
+                ctx.fail("C12-7:non-canonical-code-default:list", "a bare item given as the default of a list type is printed verbatim and read back as a list",
+                         dict(detail, text=t1))
+            continue
+        if origin == "shared" and canon(a) != canon(b):
+            # Python NUMBERS of a pass-through scalar are read back as their source text (1 -> "1"): finding C12/6
+            from corr.C11 import diff_path
+            ctx.fail("C12-6:custom-scalar-number-becomes-string:" + ("default" if "default_value" in diff_path(a, b) else "other"),
+                     "a numeric default of a custom scalar is printed as a number literal and read back as a string", dict(detail, text=t1))
             a = b
         if canon(a) != canon(b):
             from corr.C11 import diff_path
@@ -350,10 +365,13 @@ def gen_case(ctx, size=None):
 ANY_POOL = [True, 1, 1.0, 0, False, 0.0, "1", "0", "x", None, 2, -1.5, "true", 1.5,
             # strings of a pass-through scalar that look numeric (finding H3, fixed in /repo 889f979): written as a number
             # only when the number denotes the very same text
-            "42.42", "1e+20", "007", "1e3", "1.50", "nan", " 7 ", "0.1", "-0.0", "1.5e-07", "inf", "1e-05", "100.0", "1.0e+16"]
+            "42.42", "1e+20", "007", "1e3", "1.50", "nan", " 7 ", "0.1", "-0.0", "1.5e-07", "inf", "1e-05", "100.0", "1.0e+16",
+            # structured values of a JSON-like scalar (fix I7): dicts (keys inserted in sorted order: the wire format sorts
+            # them) and lists / tuples
+            {"a": 1, "b": [True, "x", None], "c": {}}, [1, "two"], (1.5, "x"), {}, {"k": {"n": [0]}}]
 
 
-def shared_build(seed, count):
+def shared_build(seed, count, noncanon=False):
     """`count` code-built schemas SHARING one pass-through custom scalar object (`Any`, JSON-style) and one input
     type, with equal-but-differently-typed Python defaults (True / 1 / 1.0, False / 0 / 0.0, "1") spread over them."""
     import random
@@ -370,6 +388,8 @@ def shared_build(seed, count):
         if isinstance(t, S.NonNullType) and v is None:
             v = 1
         if isinstance(t, S.ListType):
+            if noncanon and v is not None and not isinstance(v, (list, tuple, dict)) and rng.random() < 0.6:
+                return v      # a bare item for a list type (finding C12/7)
             return v if v is None else tuplify(rng, [x for x in rng.sample(ANY_POOL, rng.randint(0, 3))])
         return v
 
@@ -436,7 +456,7 @@ def rebuild_cases(sources):
     out = []
     for src in sources:
         if "shared" in src:
-            key = (src["shared"]["seed"], src["shared"]["count"])
+            key = (src["shared"]["seed"], src["shared"]["count"], bool(src["shared"].get("noncanon")))
             if key not in fam:
                 fam[key] = shared_build(*key)
             out.append(fam[key][src["index"]])
@@ -451,14 +471,14 @@ def rebuild_case(src):
     if "sdl" in src:
         return build_schema(src["sdl"]), False
     if "shared" in src:
-        return shared_build(src["shared"]["seed"], src["shared"]["count"])[src["index"]], False
+        return shared_build(src["shared"]["seed"], src["shared"]["count"], bool(src["shared"].get("noncanon")))[src["index"]], False
     return code_build(random.Random(src["seed"]), src["content"], src["p_omit"])
 
 
-def gen_shared(ctx):
+def gen_shared(ctx, noncanon=False):
     seed, count = ctx.rng.randrange(1 << 30), ctx.rng.randint(1, 3)
-    return [("shared", {"shared": {"seed": seed, "count": count}, "index": j}, s, False)
-            for j, s in enumerate(shared_build(seed, count))]
+    return [("shared-noncanon" if noncanon else "shared", {"shared": {"seed": seed, "count": count, "noncanon": noncanon}, "index": j}, s, False)
+            for j, s in enumerate(shared_build(seed, count, noncanon))]
 
 
 def run_roundtrip(ctx):
@@ -469,7 +489,7 @@ def run_roundtrip(ctx):
             break
         try:
             if k % 5 == 4:
-                origin, src, schema, h2 = ctx.rng.choice(gen_shared(ctx))
+                origin, src, schema, h2 = ctx.rng.choice(gen_shared(ctx, noncanon=(k % 25 == 24)))
             else:
                 origin, src, schema, h2 = gen_case(ctx)
         except Exception as e:  # noqa  (C11's business; never let it escape)
@@ -578,7 +598,8 @@ def run_corpus(ctx):
             except Exception as e:  # noqa
                 ctx.stat("corpus-build-failed:" + type(e).__name__)
                 continue
-            check_schema(ctx, s, case["id"], {"sdl": case["sdl"]}, [OPTS[0], dict(OPTS[0], include_custom_schema_directives=True)])
+            check_schema(ctx, s, case["id"], {"sdl": case["sdl"]}, [OPTS[0], dict(OPTS[0], include_custom_schema_directives=True),
+                                                                     dict(OPTS[0], include_custom_schema_directives=["public"])])
 
 
 # ---------------------------------------------------------------------------
